@@ -201,6 +201,9 @@ type Scenario struct {
 	Stack StackCfg
 	Conns []ConnCfg
 	Steps []Step
+	// Probe, if set, inspects the implementation's backends (and may query the driver) after
+	// every fed command, i.e. at quiescence; what it returns is reported as violations.
+	Probe func(sc Scenario, i int, st *Stack, d *Driver, ob StepObs) []Violation
 }
 
 type Divergence struct {
@@ -262,6 +265,7 @@ type Outcome struct {
 	Tainted bool
 	Obs     []StepObs
 	Misses  []OracleMiss
+	Probed  []Violation
 	Script  []string
 	Descs   []string
 }
@@ -425,8 +429,8 @@ func runScenario(d *Driver, sc Scenario, timeout time.Duration, oracle bool, res
 				return diverge(i, tf.name+" contents", want, got[0]), false, obs
 			}
 		}
-		if ending != "eof" {
-			// the connection is gone; later feeds on it are skipped by construction of the generators
+		if sc.Probe != nil {
+			res.Probed = append(res.Probed, sc.Probe(sc, i, st, d, obs[i])...)
 		}
 	}
 	return nil, false, obs
@@ -451,7 +455,9 @@ var keyAlphabet = []string{"a", "b", "foo", "k1", "key-7", "zz"}
 
 // TTL alphabet of C09: 0, small, large relative, 30-day boundary, absolute future, absolute past.
 func (g *Gen) TTL(now int64) uint32 {
-	switch g.r.Intn(9) {
+	switch g.r.Intn(10) {
+	case 9:
+		return uint32(now) + thirtyDays + 1000 + uint32(g.r.Intn(100000)) // absolute, more than 30 days ahead
 	case 0, 1:
 		return 0
 	case 2:
